@@ -660,7 +660,8 @@ LEVEL_TEXT = ('Machine-checked proofs (Coq 8.16.1, closed under the global conte
               'Pony\'s Decompiler, compared with the real bytecode, Decompiler.instructions, or_jumps, conditions_end and the final AST on every run (no disagreement on ~90k cases in the thorough tier): '
               'C03_compile_sound (exec of the compiled stream = eval for EVERY expression of the fragment incl. if-else, all 5 positions; C03_thread_sound: jump threading preserves exec of any stream); '
               'round trips decompile (compile e) = Some e for five unbounded families: C03_andor_depth3 (every `or` of >= 2 alternatives, each a literal or an `and` of conjuncts, each conjunct a literal '
-              'or an `or`-clause of literals) and C03_andor_depth3_dual (the same with `and` and `or` exchanged) - i.e. every and/or nesting of depth <= 3 over literals, any widths, filter position; '
+              'or an `or`-clause of literals) and C03_andor_depth3_dual (the same with `and` and `or` exchanged); together C03_andor_depth_le3: forall e, alt_depth o 3 e = true -> decompile PFilter e = Some e - '
+              'every alternating and/or nesting of depth <= 3 over literals, any widths, filter position; '
               'C03_andor_partial / _cnf ("or of ands" / "and of ors" of literals incl. the one-group cases; literals are a, not a, a == b, a != b, not a == b, a is (not) None) and C03_ifexp_partial '
               '((xa if t1 and ... and tn else xb) in element position); analyze_jumps is characterised for arbitrary streams (or_jumps_classified). '
               'NOT proved: nesting depth >= 4, `not` over a group, positions other than the filter. '
